@@ -37,6 +37,8 @@ def one(rng, method, pool, variant, size='small', flags=None, perturb=None):
     else:  # big messages
         pairs, maxlog2, out = rng.choice([12, 24]), 22, rng.choice([2, 6])
     threads = rng.choice([2, 3, 4]) if size != 'many' else 4
+    if pool:
+        threads = max(threads, 3)   # one PU goes to the polling pool; keep two default-pool workers
     pollsize = rng.choice([1, 8, 8, 32])
     rounds = rng.choice([1, 2])
     p = perturb if perturb is not None else rng.choice([0, 100, 300])
